@@ -108,20 +108,8 @@ TFinal == /\ Quiescent /\ ret = NoRet /\ Ev("Final") /\ AcceptFinal(Rec[l])
           /\ l' = l + 1 /\ UNCHANGED <<info, table, types, stack, evals, ret, prev, seen>>
 
 \* --- re-executions (C11 ii, iii) ---
-RECURSIVE Grow(_, _, _)
-Grow(M, r1, r2) ==
-  LET nxt == M \cup UNION { LET a == Refs(r1[p[1]+1]) b == Refs(r2[p[2]+1]) IN
-                              {<<a[k], b[k]>> : k \in 1..Min2(Len(a), Len(b))} : p \in M }
-  IN IF nxt = M THEN M ELSE Grow(nxt, r1, r2)
-Iso(e) ==
-  LET r1 == e.types1 r2 == e.types2
-      M0 == {<<e.roots1[i][2], e.roots2[j][2]>> : <<i, j>> \in {p \in (1..Len(e.roots1)) \X (1..Len(e.roots2)) : e.roots1[p[1]][1] = e.roots2[p[2]][1]}}
-  IN IF ~(WellFormed(r1) /\ WellFormed(r2)) THEN TRUE      \* ill-formedness is C01's finding, not this one's
-     ELSE LET M == Grow(M0, r1, r2)
-              f == [a \in {x[1] : x \in M} |-> CHOOSE b \in {x[2] : x \in M} : <<a, b>> \in M] IN
-          /\ Len(r1) = Len(r2)
-          /\ Partition(M)
-          /\ \A p \in M : Body(MapRefs(r1[p[1]+1], LAMBDA a : f[a])) = Body(r2[p[2]+1])
+Iso(e) == RegIso(e.types1, e.types2,
+                 {<<e.roots1[p[1]][2], e.roots2[p[2]][2]>> : p \in {q \in (1..Len(e.roots1)) \X (1..Len(e.roots2)) : e.roots1[q[1]][1] = e.roots2[q[2]][1]}})
 TReexec == /\ Quiescent /\ ret = NoRet
            /\ \/ Ev("Replay") /\ (Check = "C11" => Rec[l].a = Rec[l].b)
               \/ Ev("Perm") /\ (Check = "C11" => Iso(Rec[l]))
